@@ -1290,6 +1290,15 @@ CORPUS = [
      "data": DATA, "shopify": True, "kind": "acyclic"},
     {"id": 'tr-namespace', "templates": {'main': "{% assign v0 = 'xxxx' %}{% tablerow r in rows4 cols: c2 %}{% assign t = 0 | tick %}{% assign v1 = 'yyyyyyyy' | append: r %}{% render 'q' %}{% endtablerow %}{% assign t = 0 | tock %}{% assign v1 = 'a much longer value than before, assigned again' %}", 'q': "{% assign w = 'zzzzzzzzzzzz' %}{% assign w = 'zzzzzzzzzzzzzzzzzzzzzzzz' %}"},
      "data": DATA, "shopify": True, "kind": "acyclic"},
+    # `include ... with <array>` renders the partial once per item, like `include ... for`
+    {"id": 'inc-with-array', "templates": {'main': "{% include 'p' with a3 %}{% assign t = 0 | tock %}", 'p': '{% assign t = 0 | tick %}{{ p }}'},
+     "data": DATA, "shopify": False, "kind": "acyclic"},
+    {"id": 'inc-with-array-loop', "templates": {'main': "{% include 'p' with rows4 %}{% assign t = 0 | tock %}", 'p': '{% assign t = 0 | tick %}{% for j in (1..3) %}{% assign t = 1 | tick %}{{ p }}{{ j }}{% endfor %}{% assign t = 1 | tock %}'},
+     "data": DATA, "shopify": False, "kind": "acyclic"},
+    {"id": 'inc-with-array-in-for', "templates": {'main': "{% for i in (1..2) %}{% assign t = 2 | tick %}{% include 'p' with a3 as x %}{% assign t = 0 | tock %}{% endfor %}{% assign t = 2 | tock %}", 'p': '{% assign t = 0 | tick %}{% for j in (1..2) %}{% assign t = 1 | tick %}{{ x }}{% endfor %}{% assign t = 1 | tock %}'},
+     "data": DATA, "shopify": False, "kind": "acyclic"},
+    {"id": 'inc-with-range', "templates": {'main': "{% include 'p' with (1..4) %}{% assign t = 0 | tock %}", 'p': "{% assign t = 0 | tick %}{% render 'q' for a2 %}{% assign t = 1 | tock %}", 'q': '{% assign t = 1 | tick %}x'},
+     "data": DATA, "shopify": False, "kind": "acyclic"},
     # loops across the extends / block / block.super boundary
     {"id": 'ext-block-in-for', "templates": {'base': 'B{% for i in (1..3) %}{% assign t = 0 | tick %}{% block one %}b{% endblock %}{% endfor %}{% assign t = 0 | tock %}', 'main': "{% extends 'base' %}{% block one %}{% for k in (1..3) %}{% assign t = 1 | tick %}x{% endfor %}{% assign t = 1 | tock %}{% endblock %}"},
      "data": DATA, "shopify": False, "kind": "acyclic"},
